@@ -5,7 +5,7 @@
                 1 = model and implementation differ, property still holds on the observation
                 2 = they differ and the property fails on the implementation's observation
                 3 = they agree and the property fails (model mirrors a defect) *)
-From Verif Require Export C03.Model C03.Level.
+From Verif Require Export C03.Model C03.Level C03.Batch C03.Handoff C03.Remote.
 From Verif Require Import C03.Spec.
 Open Scope N_scope.
 
@@ -25,7 +25,25 @@ Inductive case :=
 | CWrite (l : level) (self : N) (ooo : bool) (nf : lnf) (owners : list owner) (order : list N)
          (cls : N) (e : option err) (oo : list oobs)
 (* models.ParseConsistencyLevel on a `consistency` parameter value: accepted?, the numeric level *)
-| CLevel (param : list N) (ok : bool) (num : N).
+| CLevel (param : list N) (ok : bool) (num : N)
+(* a BATCH over several shards through WritePointsPrivileged: level, coordinator node id,
+   AllowOutOfOrderWrites, the shards each with its owners' arrival order, the order in which the
+   shards are released, Close after that many shards (or never), number of points beyond the
+   retention policy; then what the implementation did: class (0 nil, 1 ErrPartialWrite,
+   2 write failed, 3 ErrTimeout, 4 PartialWriteError "points beyond retention policy"), the
+   (shard, error) named by "write failed: ...", the Dropped count, per shard per owner effects *)
+| CBatch (l : level) (self : N) (ooo : bool) (so : list (shard * list N)) (sorder : list N)
+         (close : option N) (dropped : N) (cls : N) (e : option (N * err)) (dn : N) (oo : list (list oobs))
+(* a sequence of writes to one shard with the REAL hh.Service (max-size [max]) behind the points
+   writer: coordinator id, AllowOutOfOrderWrites, handoff enabled, max-size, owner node ids, the
+   writes; then per write the class reported, the (owner, write) pairs the owners' stores
+   received, and per owner the write ids found in its queue when it is drained afterwards *)
+| CHH (self : N) (ooo enabled : bool) (max : N) (ids : list N) (ws : list hwrite)
+      (classes : list N) (stores : list (N * N)) (queues : list (list N))
+(* a sequence of writes through the REAL ShardWriter (+ connection pool) to a scripted node:
+   per write the node's behaviour; then per write: success reported?, did the node store and
+   acknowledge exactly this write? *)
+| CRemote (script : list rreply) (outs : list bool) (acked : list bool).
 
 Definition impl_result (cls : N) (e : option err) : option result :=
   match cls with
@@ -60,8 +78,45 @@ Fixpoint list_eqb {A} (eqb : A -> A -> bool) (a b : list A) : bool :=
   | _, _ => false
   end.
 
+Definition impl_bout (cls : N) (e : option (N * err)) (dn : N) : option bout :=
+  match cls with
+  | 0 => Some OOk | 1 => Some (OErr CPartial None) | 2 => Some (OErr CFailed e)
+  | 3 => Some (OErr CTimeout None) | 4 => Some (ODrop dn)
+  | _ => None
+  end.
+
+Definition bout_eqb (a b : bout) : bool :=
+  match a, b with
+  | OOk, OOk => true
+  | ODrop x, ODrop y => x =? y
+  | OErr c None, OErr c' None => class_eqb c c'
+  | OErr c (Some (s, x)), OErr c' (Some (s', y)) => class_eqb c c' && (s =? s') && err_eqb x y
+  | _, _ => false
+  end.
+
+Definition pair_eqb (a b : N * N) : bool := (fst a =? fst b) && (snd a =? snd b).
+
 Definition check_case (c : case) : N :=
   match c with
+  | CBatch l self ooo so sorder close dropped cls e dn oo =>
+      let b := mkB l self ooo in
+      let m := batch_model b so sorder close dropped in
+      let valid := valid_batch b so sorder close in
+      match impl_bout cls e dn with
+      | None => 2
+      | Some o =>
+          code (valid && bout_eqb (out_of (bo_result m)) o && list_eqb (list_eqb oobs_eqb) (bo_shards m) oo)
+               (valid && batch_spec_ok b so sorder close dropped o oo)
+      end
+  | CHH self ooo enabled max ids ws classes stores queues =>
+      let r := hrun self ooo (mkH enabled max) (map (fun id => (id, hq_new)) ids) ws in
+      code (list_eqb N.eqb (map class_num (fst (fst r))) classes
+            && list_eqb pair_eqb (snd (fst r)) stores
+            && list_eqb (list_eqb N.eqb) (map (fun p => q_blocks (snd p)) (snd r)) queues)
+           (hh_backed ws classes stores queues && Nat.eqb (length queues) (length ids))
+  | CRemote script outs acked =>
+      code (list_eqb Bool.eqb (rrun false None script) outs)
+           (acked_ok outs acked)
   | CWrite l self ooo nf owners order cls e oo =>
       let cfg := mkC l self ooo nf in
       let m := model cfg owners order in
